@@ -152,3 +152,41 @@ def successors(term):
     if k == "call":
         return [term["target"]] if term["target"] else []
     return []
+
+
+def natural_loops(fn):
+    """{head: set(body blocks)} of the non-cleanup control-flow graph: back edges found by DFS from bb0, bodies by
+    backward reachability from the back edge's source without passing the head."""
+    nodes = [b for b in fn.order if not fn.blocks[b][2]]
+    ok = set(nodes)
+    succ = {b: [s for s in successors(parse_term(fn.blocks[b][1])) if s in ok] for b in nodes}
+    preds = {b: [] for b in nodes}
+    for b in nodes:
+        for s in succ[b]:
+            preds[s].append(b)
+    color, back = {}, []
+    stack = [("bb0", iter(succ.get("bb0", [])))]
+    color["bb0"] = 1
+    while stack:
+        b, it = stack[-1]
+        for s in it:
+            if color.get(s, 0) == 0:
+                color[s] = 1
+                stack.append((s, iter(succ[s])))
+                break
+            if color[s] == 1:
+                back.append((b, s))
+        else:
+            color[b] = 2
+            stack.pop()
+    loops = {}
+    for u, h in back:
+        body = loops.setdefault(h, {h})
+        work = [u]
+        while work:
+            x = work.pop()
+            if x in body:
+                continue
+            body.add(x)
+            work.extend(preds[x])
+    return loops
